@@ -399,6 +399,8 @@ class PShuffleInput(PStochasticPattern):
         if self.pos == 0:
             kevery = Pattern.value(self.every)
             self.values = self.pattern.nextn(kevery)
+            if not self.values:
+                raise StopIteration
             self.rng.shuffle(self.values)
 
         rv = self.values[self.pos]
